@@ -141,6 +141,13 @@ def gen_case(rng, tier, idx, shard, nshards):
         if not any(o[0] == "add_matrix_error" and not o[1].get("relative") and gen.norm_axis(o[1].get("axis")) != "x" for o in ops):
             # correlations declared through a matrix: after scaling its elements are small (or large) numbers, not zeros
             ops.insert(len([o for o in ops if o[0] in ("add_error", "add_matrix_error")]), gen.gen_source(rng, n, ftype, "eM", yscale=yscale, force={"kind": "matrix", "axis": "y", "reference": "data", "relative": False}))
+        if rng.random() < 0.6:
+            # cost functions that come with a pointwise twin, and correlations declared through the matrix only: the configuration in
+            # which the choice between the twins rests on the magnitude of the matrix elements alone
+            spec["cost"] = str(rng.choice(["chi2", "chi2_covariance", "gauss_approximation_covariance"]))
+            for op in ops:
+                if op[0] == "add_error":
+                    op[1]["corr"] = 0.0
         key = "y" if "y" in spec else "data"
         spec[key] = [float(v * unit) for v in spec[key]]
         up = set(UNIT_PARAMS[spec["model"]["family"]])
